@@ -10,6 +10,7 @@ import (
 	"go.lstv.dev/util/sem"
 	"go.lstv.dev/util/size"
 	"go.lstv.dev/util/uu"
+	"verif/libdefaults"
 	"verif/mc"
 	"verif/oracle"
 )
@@ -183,7 +184,17 @@ func probeFirst(a firstArg) (string, string) {
 }
 
 type urnArg struct {
-	Val int `json:"value_index"`
+	Val    int  `json:"value_index"`
+	Custom bool `json:"custom_formatter_installed,omitempty"` // a user-installed uu.Formatter must not change ID.URN (it is defined through the default plain rendering)
+}
+
+func setupURN(a urnArg) {
+	libdefaults.UU()
+	if a.Custom {
+		uu.Formatter = func(buf []byte, id uu.ID, f uu.Format) ([]byte, error) {
+			return append(buf, fmt.Sprintf("{%016X%016X}", id.Higher, id.Lower)...), nil
+		}
+	}
 }
 
 func probeURN(a urnArg) (string, string) {
@@ -194,7 +205,7 @@ func probeURN(a urnArg) (string, string) {
 	}
 	first := id.URN()
 	_ = ids[(a.Val+1)%len(ids)].URN()
-	if first != id.URN() || first != "urn:uuid:"+id.String() {
+	if first != id.URN() || !a.Custom && first != "urn:uuid:"+id.String() {
 		return "urn_unstable", fmt.Sprintf("URN() = %q, again %q, String %q", first, id.URN(), id.String())
 	}
 	if f, _ := uu.DefaultFormatter(nil, id, uu.FormatURN); string(f) != first {
@@ -207,7 +218,8 @@ func main() {
 	mc.Main("C16", "every (type, value, flag subset, prefix, spare capacity) of the stated grids; prefixes include every single byte value and the letters/digits each formatter emits; "+
 		"non-trivial = the prefix contains a byte the formatter itself can emit", func(r *mc.Run) {
 		p := mc.NewProbe(r, "append", nil, probe)
-		pu := mc.NewProbe(r, "urn", nil, probeURN)
+		pu := mc.NewProbe(r, "urn", setupURN, probeURN)
+		r.Reset = libdefaults.All
 		r.Assume("oracle: out == prefix ++ format(nil); the caller's backing array is snapshotted before the call and its prefix bytes compared after; the spare capacity region may be written")
 		pf := mc.NewProbe(r, "first_use", nil, probeFirst)
 		r.Phase("serial: first-use sequences (first formatting of a value into the caller's scratch buffer, buffer reused, buffer overwritten, formatted again) for values not formatted before in this process", "complete for the listed values", func() {
@@ -260,11 +272,15 @@ func main() {
 		r.Sample("append", arg{Type: "roman", Val: 2, Flags: 64, Prefix: "MIX:", Spare: 3})
 		r.Phase("ID.URN on every listed id", "complete for the listed ids", func() {
 			r.Serial(func(w *mc.W) {
-				for i := range ids {
-					w.Point()
-					w.NonTrivial()
-					pu.Do(w, urnArg{i})
+				for _, custom := range []bool{false, true} {
+					setupURN(urnArg{Custom: custom})
+					for i := range ids {
+						w.Point()
+						w.NonTrivial()
+						pu.Do(w, urnArg{i, custom})
+					}
 				}
+				libdefaults.UU()
 			})
 		})
 	})
